@@ -671,25 +671,54 @@ class Frame:
             return at[k] if flip else (not at[k])
         return None
 
-    def do_if(self, st: ast.If, p: Path) -> List[Path]:
-        out = []
-        d0 = self.decide(st.test, p)
-        for q, tt in self.expr(st.test, p):
+    def branch(self, test: ast.expr, p: Path) -> List[Tuple[Path, Optional[bool]]]:
+        """Evaluate a test with short-circuit semantics -> [(path, outcome)]: every returned path has
+        the *atomic* tests it decided appended to its conditions (``a and b`` / ``a or b`` / ``not a``
+        are split, so the conditions of a path do not depend on how a guard was composed).
+        outcome None marks a path that died while evaluating the test."""
+        if isinstance(test, ast.UnaryOp) and isinstance(test.op, ast.Not):
+            return [(q, (None if v is None else (not v))) for q, v in self.branch(test.operand, p)]
+        if isinstance(test, ast.BoolOp):
+            stop = isinstance(test.op, ast.Or)      # the value that ends the evaluation early
+            cur: List[Tuple[Path, Optional[bool]]] = [(p, not stop)]
+            for v in test.values:
+                nxt: List[Tuple[Path, Optional[bool]]] = []
+                for q, val in cur:
+                    if val is None or val == stop:
+                        nxt.append((q, val))
+                    else:
+                        nxt.extend(self.branch(v, q))
+                cur = nxt
+            return cur
+        out: List[Tuple[Path, Optional[bool]]] = []
+        d0 = self.decide(test, p)
+        txt = ast.unparse(test)
+        for q, tt in self.expr(test, p):
             if q.status != "live":
-                out.append(q)
+                out.append((q, None))
                 continue
             d = d0 if d0 is not None else self.implied(q, tt)
-            txt = ast.unparse(st.test)
             if d is not False:
-                a = q.fork()
+                a = q.fork() if d is None else q
                 a.conds.append((txt, True, tt.key()))
-                self.narrow(st.test, True, a)
-                out.extend(self.block(st.body, [a]))
+                self.narrow(test, True, a)
+                out.append((a, True))
             if d is not True:
-                b = q.fork()
+                b = q.fork() if d is None else q
                 b.conds.append((txt, False, tt.key()))
-                self.narrow(st.test, False, b)
-                out.extend(self.block(st.orelse, [b]) if st.orelse else [b])
+                self.narrow(test, False, b)
+                out.append((b, False))
+        return out
+
+    def do_if(self, st: ast.If, p: Path) -> List[Path]:
+        out = []
+        for q, v in self.branch(st.test, p):
+            if v is None:
+                out.append(q)
+            elif v:
+                out.extend(self.block(st.body, [q]))
+            else:
+                out.extend(self.block(st.orelse, [q]) if st.orelse else [q])
         return out
 
     def narrow(self, test, polarity: bool, p: Path):
@@ -1110,21 +1139,13 @@ class Frame:
 
     def e_IfExp(self, e, p):
         out = []
-        d0 = self.decide(e.test, p)
-        for q, tt in self.expr(e.test, p):
-            if q.status != "live":
+        for q, v in self.branch(e.test, p):
+            if v is None:
                 out.append((q, Opaque("dead")))
-                continue
-            d = d0 if d0 is not None else self.implied(q, tt)
-            txt = ast.unparse(e.test)
-            if d is not False:
-                a = q.fork()
-                a.conds.append((txt, True, tt.key()))
-                out.extend(self.expr(e.body, a))
-            if d is not True:
-                b = q.fork()
-                b.conds.append((txt, False, tt.key()))
-                out.extend(self.expr(e.orelse, b))
+            elif v:
+                out.extend(self.expr(e.body, q))
+            else:
+                out.extend(self.expr(e.orelse, q))
         return out
 
     def e_Tuple(self, e, p):
